@@ -23,7 +23,7 @@ SPEC = dict(
                what="the channelRisks literal and the two defaults of Channel.Clean in snap/channel/channel.go")],
     drivers=[
         dict(name="channel", kind="main", pkg="./zzverif/c34",
-             n=dict(quick=400, thorough=40000), timeout=dict(quick=300, thorough=1800),
+             n=dict(quick=400, thorough=1000), timeout=dict(quick=300, thorough=1800),
              ev=dict(requires=["V.lib.Bytes", "V.models.Channel"], case_type="Channel.case",
                      mismatch="Channel.mismatch", monitor="Channel.monitor_fail")),
         dict(name="snapstate", kind="test", pkg="./overlord/snapstate", run="TestVerifC34Snapstate",
@@ -33,17 +33,17 @@ SPEC = dict(
     ],
     classify=classify,
     rule=("parse: EVERY string of 1..3 components over the vocabulary {'', latest, stable, candidate, beta, edge, foo, 1.0, "
-          "hotfix} joined by '/' and every 4-component string over {'', latest, stable, edge, foo} (thorough: 1..5 "
-          "components over all nine words), each through ParseVerbatim, Parse, Channel.String/Full/Clean, "
+          "hotfix} joined by '/' and every 4-component string over {'', latest, stable, edge, foo} (thorough: 1..4 "
+          "components over all nine words and every 5-component string over {'', latest, stable, foo}), each through ParseVerbatim, Parse, Channel.String/Full/Clean, "
           "Parse(String()) and top-level Full, with the architecture argument rotating over amd64/arm64/-/''/riscv64/x; "
           "clean: Channel values with track, risk, branch each over {'', latest, stable, edge, foo, a/b}; resolve: ALL pairs "
-          "(cur of 1..3 components, new of 1..2 components) and pinned: ALL pairs (track of 1 component plus four 2-component ones (thorough: all of 1..2), new of 1..3 components) "
-          "over {'', latest, stable, edge, foo} (pinned: {'', latest, edge, foo, foox}; thorough: the 9-word vocabulary plus foox); plus a random stream (odd spellings, "
+          "(cur of 1..3 components, new of 1..2 components) and pinned: ALL pairs (track of 1 component plus four 2-component ones (thorough: all 30 of 1..2), new of 1..3 components) "
+          "over {'', latest, stable, edge, foo} (pinned: {'', latest, edge, foo, foox}; thorough: new of Resolve over six words, 6 510 pairs); plus a random stream (odd spellings, "
           "non-ASCII, doubled slashes, up to 6 components) through all four. Non-trivial = accepted parse / Clean changed "
           "something / Resolve inherited the track / pinned track valid. snapstate: overlord/snapstate resolveChannel (through "
           "export_test.go's ResolveChannel, in-package test driver) for 10 (snap, kernel track, gadget track) configurations "
-          "(thorough: all 36 over snap in kernel/brand-gadget/core18/some-snap and tracks in none/18/foo) x 5 current channels "
-          "(thorough 10) x 49 requested channels (all of 1..2 components over {'', stable, edge, latest, 18, foo}, seven longer "
+          "(thorough: 24: all 9 track combinations in none/18/foo for the kernel and for the gadget, 3 each for core18 and some-snap) x 5 current channels "
+          "(thorough 6) x 49 requested channels (all of 1..2 components over {'', stable, edge, latest, 18, foo}, seven longer "
           "ones) plus the request equal to the current channel; non-trivial = the snap is pinned and the request is non-empty."),
     exhaustive=dict(quick=True, thorough=True),
     trusted_base=[
